@@ -83,6 +83,15 @@ func main() {
 				fmt.Println("no function", k)
 			}
 		}
+	case "scan-slices":
+		w, err := setup()
+		if err != nil {
+			fmt.Fprintln(os.Stderr, err)
+			os.Exit(2)
+		}
+		for _, l := range w.scanSliceArgs() {
+			fmt.Println(l)
+		}
 	default:
 		fmt.Fprintln(os.Stderr, "unknown command")
 		os.Exit(2)
